@@ -23,31 +23,44 @@ def _seeded_cfg(base, seed):
     return path, name
 
 
-def _binding_selftest(drv, rows, chk):
-    """Flip the expected verdict of a few rows: the driver must object to every
-    one of them, otherwise the replay binds nothing."""
-    picked = [dict(r) for r in rows if len(r["certs"]) >= 1 and r["var"] in ("bal", "free")][:6]
-    if not picked:
-        raise vlib.MachineryError("binding self-test: no rows")
-    for r in picked:
-        r["accept"] = not r["accept"]
+def _disagreements(drv, rows, chk, name):
     d = vlib.scratch("c27self-")
-    path = os.path.join(d, "flipped.ndjson")
-    vlib.write_ndjson(path, picked)
+    path = os.path.join(d, name)
+    vlib.write_ndjson(path, rows)
     p = vlib.run_cmd([drv, path], timeout=120, env={"VERIF_SEED": chk.seed, "VERIF_TIER": chk.tier})
-    dis = 0
     for line in p.stdout.splitlines():
         try:
             rec = json.loads(line)
         except ValueError:
             continue
-        if rec.get("t") == "summary":
-            dis = rec.get("disagreements", 0)
-    # every flipped row is replayed at 3 scales + 1 round trip
-    if p.returncode != 0 or dis < 4 * len(picked):
-        raise vlib.MachineryError("binding self-test: %d flipped verdicts produced only %d disagreements"
-                                  % (len(picked), dis))
-    chk.extra["c27_binding_selftest"] = "%d flipped verdicts -> %d disagreements" % (len(picked), dis)
+        if rec.get("t") == "summary" and p.returncode == 0:
+            return rec.get("disagreements", 0), rec.get("evaluations", 0)
+    raise vlib.MachineryError("binding self-test: driver failed on %s:\n%s" % (name, p.stderr[-1500:]))
+
+
+def _binding_selftest(drv, rows, chk):
+    """The driver must react to the oracle: replay a few rows as emitted and
+    with the expected verdict flipped; every evaluation has to disagree in
+    exactly one of the two runs (whatever the code under test does), otherwise
+    the replay binds nothing."""
+    picked, seen = [], set()
+    for r in rows:
+        if r["era"] not in seen and len(r["certs"]) >= 1:
+            seen.add(r["era"])
+            picked.append(dict(r))
+    if not picked:
+        raise vlib.MachineryError("binding self-test: no rows")
+    d0, n0 = _disagreements(drv, picked, chk, "asis.ndjson")
+    for r in picked:
+        r["accept"] = not r["accept"]
+    d1, n1 = _disagreements(drv, picked, chk, "flipped.ndjson")
+    # the rule-list and baseline probes are the same in both runs; only the row replays flip
+    replays = 4 * len(picked)       # 3 scales + 1 CBOR round trip per row
+    if n0 != n1 or d0 + d1 < replays or d1 == 0:
+        raise vlib.MachineryError("binding self-test: %d replays, %d disagreements as emitted + %d flipped"
+                                  % (replays, d0, d1))
+    chk.extra["c27_binding_selftest"] = ("%d rows x 4 replays: %d disagreements as emitted, %d with the "
+                                         "expected verdict flipped" % (len(picked), d0, d1))
 
 
 def run(chk, replay=None):
